@@ -553,6 +553,22 @@ FACTORIES = {
 }
 
 
+def _cg(o, t, sct, mode):
+    return lambda: _mod("scippneutron").conversion_graph(o, t, sct, mode)
+
+
+for _o in ("tof", "wavelength", "energy", "Q"):
+    for _t in ("wavelength", "dspacing", "energy", "Q", "two_theta", "L1", "L2", "Ltotal", "incident_beam",
+               "scattered_beam", "energy_transfer", "hkl_vec"):
+        for _s in (True, False):
+            for _m in ("elastic", "direct_inelastic", "indirect_inelastic"):
+                if _m != "elastic" and (_o != "tof" or _t != "energy_transfer" or not _s):
+                    continue
+                if _m == "elastic" and _t == "energy_transfer":
+                    continue
+                FACTORIES[f"conversion_graph({_o},{_t},{_s},{_m})"] = _cg(_o, _t, _s, _m)
+
+
 def _person(name, role=None, corr=False):
     from scippneutron import metadata as md
 
@@ -908,6 +924,35 @@ def _grid_cases():
     return _GRID
 
 
+_INDEP = []
+INDEP_RUNS = 48
+PROBES = ["conversion_graph(tof,wavelength,True,elastic)", "graph.beamline.beamline(True)", "graph.tof.elastic(tof)",
+          "conversion_graph(tof,energy_transfer,True,direct_inelastic)", "graph.beamline.Ltotal(True)",
+          "ScatteringParams.for_isotope(V)", "Material(V)", "conversion_graph(tof,Ltotal,False,elastic)"]
+
+
+def _independence_cases():
+    """Factory independence sweep: for every factory F and every mutation M: obtain F, mutate the
+    result, obtain F again, then obtain two probe factories (cross-factory sharing).  Mutations
+    that do not apply to F's result type are skipped at run time."""
+    if _INDEP:
+        return _INDEP
+    j = 0
+    for f in sorted(FACTORIES):
+        for m in sorted(MUTATIONS):
+            j += 1
+            p1, p2 = PROBES[j % len(PROBES)], PROBES[(j + 3) % len(PROBES)]
+            base = 10 * j
+            _INDEP.extend([
+                {"k": "obtain", "h": base + 1, "f": f, "c": 0},
+                {"k": "mutate", "h": base + 1, "how": m, "c": 0},
+                {"k": "obtain", "h": base + 2, "f": f, "c": 1},
+                {"k": "obtain", "h": base + 3, "f": p1, "c": 1},
+                {"k": "obtain", "h": base + 4, "f": p2, "c": 1},
+            ])
+    return _INDEP
+
+
 _REENTRY = []
 REENTRY_RUNS = 16
 
@@ -946,6 +991,13 @@ def _reentrancy_cases():
 
 
 def generate(rng, tier, i):
+    if GRID_RUNS + REENTRY_RUNS <= i < GRID_RUNS + REENTRY_RUNS + INDEP_RUNS:
+        cases = _independence_cases()
+        j = i - GRID_RUNS - REENTRY_RUNS
+        n5 = len(cases) // 5
+        per = (n5 + INDEP_RUNS - 1) // INDEP_RUNS
+        return {"callers": 2, "independence": [j * per, min(n5, (j + 1) * per), n5],
+                "ops": copy.deepcopy(cases[5 * j * per:5 * (j + 1) * per])}
     if GRID_RUNS <= i < GRID_RUNS + REENTRY_RUNS:
         cases = _reentrancy_cases()
         j = i - GRID_RUNS
@@ -1360,7 +1412,8 @@ class C09Engine(Engine):
         return {"catalogue": {"calls": len(CALLS), "factories": len(FACTORIES), "derivations": len(DERIVES),
                               "handle_calls": len(HCALLS), "mutations": len(MUTATIONS),
                               "aliasing_grid_cases": len(_grid_cases()),
-                              "reentrancy_sweep_cases": len(_reentrancy_cases())},
+                              "reentrancy_sweep_cases": len(_reentrancy_cases()),
+                              "factory_independence_cases": len(_independence_cases()) // 5},
                 "module_coverage": out}
 
     # --------------------------------------------------------------- execute
@@ -1488,6 +1541,8 @@ class C09Engine(Engine):
         finally:
             server.close()
         ctx.count("pool_objects", len(world.pool))
+        if "independence" in scn:
+            ctx.count("factory_independence_cases", len(ops) // 5)
         if "reentry" in scn:
             ctx.count("reentrancy_sweep_cases", len(ops))
         if "grid" in scn:
